@@ -119,6 +119,7 @@ func runC09(e *Engine, g G, o RunOpt) RunInfo {
 	}
 	sc.MandatorySession = g.Pct("mandatory-session", 25)
 	script := DefaultNeg()
+	script.ResumeOne = g.Pct("resume-spelled-1", 25)
 	if sc.MandatorySession {
 		script.Session = SessMandatory
 	}
